@@ -77,6 +77,8 @@ class C02:
 
     # ---------------------------------------------------------------------------------------
     def check_case(self, case, get_ex):
+        if case.get("memcheck"):
+            return self.check_memcheck(case)
         schema = HAND[case["schema"]]
         flags = case["flags"]
         via = case.get("via", "buf")
@@ -261,7 +263,45 @@ class C02:
             return {"schema": sc, "flags": fl, "via": via, "text": [["x", text]]}
         return case()
 
+    def memcheck_cases(self, n):
+        """thorough only: a sample of the directed shapes on the uninstrumented build under valgrind memcheck (sees reads of
+        uninitialised memory, which ASan does not)"""
+        allq = self.directed("quick")
+        shapes = [c for c in allq if text_len(c["text"]) < 2000]
+        shapes = shapes[::max(1, len(shapes) // n)][:n]
+        return [dict(c, memcheck=True) for c in shapes]
+
+    def check_memcheck(self, case):
+        import subprocess
+        import build as buildmod
+        d = buildmod.build(("plain",))
+        exe = os.path.join(d, "plain", "cfgx")
+        fx = fixture_dir()
+        s = Script()
+        emit_schema(s, 0, HAND[case["schema"]])
+        s.add("cwd", hx(fx))
+        s.add("init", 1, 0, case["flags"])
+        s.add("parse_buf", 1, text_arg(case["text"]))
+        s.add("dump", 1)
+        s.add("print", 1)
+        s.add("parse_buf", 1, hx("i = 1\n"))
+        s.add("free", 1)
+        try:
+            p = subprocess.run(["valgrind", "-q", "--error-exitcode=97", exe], input=s.text().encode("latin-1"),
+                               stdout=subprocess.DEVNULL, stderr=subprocess.PIPE, timeout=600)
+        except (OSError, subprocess.TimeoutExpired):
+            return Outcome(classes=["memcheck-inconclusive"])
+        err = p.stderr.decode("latin-1", "replace")
+        fail = None
+        if p.returncode == 97:
+            first = [ln for ln in err.split("\n") if "==" in ln][:1]
+            fail = Failure("memcheck/%s" % (first[0].split("== ")[-1][:50] if first else "error"),
+                           "valgrind memcheck reports an error for shape %s:\n%s" % (case.get("shape"), err[:2500]))
+        return Outcome(classes=["memcheck"], nontrivial=True, failure=fail, sample={"shape": case.get("shape"), "memcheck": True})
+
     def run(self, r):
+        if r.tier == "thorough":
+            r.run_cases(self.memcheck_cases(400), chunksize=4)
         r.run_cases(self.directed(r.tier), chunksize=8)
         r.run_hypothesis(30000 if r.tier == "quick" else 600000)
         import fuzzdrv
